@@ -1,5 +1,5 @@
 //verif:dir x/auth
-//verif:for C14,C15
+//verif:for C14,C15,C16
 //go:build verifnative
 
 package auth
